@@ -19,8 +19,12 @@ def t_out(atol):
     return 2 * SQ3 * atol + 1e-6
 
 
-def classify(P, Y, atol):
-    """classify an ordered candidate (pattern coords P, image coords Y). returns (cls, maxdev, rmsd)"""
+def classify(P, Y, atol, in_thr=None):
+    """classify an ordered candidate (pattern coords P, image coords Y). returns (cls, maxdev, rmsd).
+    in_thr overrides the clear-in threshold atol/16 (used with user hints whose lever arm is worse than the automatic
+    choice: clear-in then means max deviation * amplification <= atol/2)"""
+    if in_thr is None:
+        in_thr = atol / 16.0
     P = np.asarray(P, float)
     Y = np.asarray(Y, float)
     n = len(P)
@@ -30,7 +34,7 @@ def classify(P, Y, atol):
         if np.abs(dp - dy).max() > t_out(atol):
             return "out", float("inf"), float("inf")
     R, t, rmsd, maxdev = geom.kabsch(P, Y)
-    if maxdev <= atol / 16.0:
+    if maxdev <= in_thr:
         return "in", maxdev, rmsd
     if rmsd > SQ3 * (1.01 * atol + 1e-5 * float(np.abs(Y).max())) + 1e-6:
         return "out", maxdev, rmsd
@@ -41,7 +45,7 @@ class TooAmbiguous(Exception):
     """more complete candidates than the budget: the case is skipped and counted, never judged"""
 
 
-def find_all(cell, positions, elements, ppos, pels, atol, max_candidates=20000):
+def find_all(cell, positions, elements, ppos, pels, atol, max_candidates=20000, in_thr=None):
     """returns {group_key: {"cls": "in"|"grey", "orderings": [ {"idx": [...], "pos": ndarray, "cls", "maxdev", "rmsd"} ]}}
     group_key = tuple(sorted(atom indices)). Orderings classified clear-out are not listed; groups whose every ordering
     is clear-out are absent."""
@@ -67,7 +71,7 @@ def find_all(cell, positions, elements, ppos, pels, atol, max_candidates=20000):
             continue
         anchor = positions[a]
         if n == 1:
-            _add(groups, [a], np.array([anchor]), ppos, atol)
+            _add(groups, [a], np.array([anchor]), ppos, atol, in_thr)
             continue
         d = np.sqrt(((allpos - anchor) ** 2).sum(-1))
         near = np.nonzero(d <= Rmax)[0]
@@ -93,7 +97,7 @@ def find_all(cell, positions, elements, ppos, pels, atol, max_candidates=20000):
                     raise TooAmbiguous()
                 idx = [a] + [int(natom[c]) for c in assigned]
                 Y = np.vstack([anchor] + [npos[c] for c in assigned])
-                _add(groups, idx, Y, ppos, atol)
+                _add(groups, idx, Y, ppos, atol, in_thr)
                 return
             for c in per_pos[i - 1]:
                 ok = True
@@ -109,8 +113,8 @@ def find_all(cell, positions, elements, ppos, pels, atol, max_candidates=20000):
     return groups
 
 
-def _add(groups, idx, Y, ppos, atol):
-    cls, maxdev, rmsd = classify(ppos, Y, atol)
+def _add(groups, idx, Y, ppos, atol, in_thr=None):
+    cls, maxdev, rmsd = classify(ppos, Y, atol, in_thr)
     if cls == "out":
         return
     key = tuple(sorted(idx))
@@ -118,19 +122,12 @@ def _add(groups, idx, Y, ppos, atol):
     g["orderings"].append({"idx": list(idx), "pos": Y, "cls": cls, "maxdev": maxdev, "rmsd": rmsd})
 
 
-def classify_reported(cell, positions, ppos, idx, atol):
-    """classify a reported ordered match (unit-cell indices in pattern order), reconstructing periodic images by minimum
-    image relative to the first atom.  Returns (cls, maxdev, rmsd, Y)."""
-    cell = np.asarray(cell, float)
-    positions = np.asarray(positions, float)
-    anchor = positions[idx[0]]
-    offs = geom.image_block(2) @ cell
-    Y = [anchor]
-    for k in idx[1:]:
-        cand = positions[k] + offs
-        # choose the image that best agrees with the pattern's distances to already placed atoms (anchor first)
-        d = np.sqrt(((cand - anchor) ** 2).sum(-1))
-        Y.append(cand[int(np.argmin(d))])
-    Y = np.array(Y)
-    cls, maxdev, rmsd = classify(ppos, Y, atol)
-    return cls, maxdev, rmsd, Y
+def in_threshold(ppos, hints, atol):
+    """clear-in threshold for a hint list: atol/16 for the automatic choice (amplification <= 8), tighter when user
+    hints have a worse lever arm"""
+    from mv.gen_geom import effective_hints, lever_bound
+    if len(ppos) < 2 or all(h is None for h in hints):
+        return atol / 16.0
+    ap1, ap2, op = effective_hints(ppos, hints)
+    amp = lever_bound(ppos, ap1, ap2, op)
+    return min(atol / 16.0, atol / (2.0 * amp))
